@@ -9,6 +9,7 @@ import (
 	"sync/atomic"
 	"unsafe"
 
+	"google.golang.org/protobuf/internal/verifhook"
 	"google.golang.org/protobuf/reflect/protoreflect"
 )
 
@@ -22,6 +23,9 @@ func (Export) UnmarshalField(msg any, fieldNum int32) {
 // field number unaltered.  Example (field number 70 -> part =
 // &m.XXX_presence[1], num = 70)
 func (Export) Present(part *uint32, num uint32) bool {
+	if verifhook.Enabled {
+		verifhook.Ev(verifhook.LazyPresent, uintptr(num), 0, uintptr(unsafe.Pointer(part)))
+	}
 	// This hook will read an unprotected shadow presence set if
 	// we're unning under the race detector
 	raceDetectHookPresent(part, num)
@@ -89,6 +93,9 @@ func (p pointer) atomicSetPointer(q pointer) {
 // atomic load).  This function is inlineable and, on x86, just becomes a
 // simple load and compare.
 func (Export) AtomicCheckPointerIsNil(ptr any) bool {
+	if verifhook.Enabled {
+		verifhook.Ev(verifhook.LazyBeforeLoad, 0, 0, 0)
+	}
 	return interfaceToPointer(&ptr).atomicGetPointer().IsNil()
 }
 
@@ -103,7 +110,13 @@ func (Export) AtomicSetPointer(dstPtr, valPtr any) {
 // AtomicLoadPointer loads the pointer at the location pointed at by src,
 // and stores that pointer value into the location pointed at by dst.
 func (Export) AtomicLoadPointer(ptr Pointer, dst Pointer) {
+	if verifhook.Enabled {
+		verifhook.Ev(verifhook.LazyBeforeGet, 0, 0, uintptr(unsafe.Pointer(ptr)))
+	}
 	*(*unsafe.Pointer)(unsafe.Pointer(dst)) = atomic.LoadPointer((*unsafe.Pointer)(unsafe.Pointer(ptr)))
+	if verifhook.Enabled {
+		verifhook.Ev(verifhook.LazyAfterGet, 0, 0, uintptr(*(*unsafe.Pointer)(unsafe.Pointer(dst))))
+	}
 }
 
 // AtomicInitializePointer makes ptr and dst point to the same value.
